@@ -134,6 +134,8 @@ def sx_query(q) -> str:
         parts.append("(sub" + "".join(f" ({a} {b})" for a, b in q["sub"]) + ")")
     parts.append("(doms" + "".join(
         f" ({VAR_IDS[n]}{''.join(' ' + sx_val(v) for v in d)})" for n, d in q["doms"].items()) + ")")
+    if q.get("share_attr_nodes"):
+        parts.append("(share)")   # python side only: one attribute node object per distinct attribute expression
     return ("(qx " if has_subq(q["cond"]) else "(q ") + " ".join(parts) + ")"
 
 
@@ -223,6 +225,8 @@ def parse_query(line: str):
                          for o in part[1:]]
         elif part[0] == "sub":
             q["sub"] = [(int(a), int(b)) for a, b in part[1:]]
+        elif part[0] == "share":
+            q["share_attr_nodes"] = True
         elif part[0] == "doms":
             for d in part[1:]:
                 q["doms"][_ID_VARS[int(d[0])]] = [_p_val(v) for v in d[1:]]
@@ -297,12 +301,16 @@ def make_vars(q, objs, one_shot: bool = False, wrap_domain=None):
     return V
 
 
-def build_query(q, V, objs, quantification=None):
-    """Build one real EQL query over existing variables V. Returns (query_object, selected exprs, single)."""
+def build_query(q, V, objs, quantification=None, cond_memo=None):
+    """Build one real EQL query over existing variables V. Returns (query_object, selected exprs, single).
+    cond_memo: dict shared between several builds — a compound condition (and_/or_) whose AST was built before is
+    REUSED as the same Python object (the user stored the condition in a variable and used it in two queries)."""
     from krrood.entity_query_language import symbolic as S
     from krrood.entity_query_language.entity import (entity, set_of, and_, or_, not_, contains, exists, for_all,
                                                       flatten)
     from krrood.entity_query_language.quantify_entity import an
+
+    shared = {}
 
     def term(t):
         if t[0] == "var":
@@ -310,6 +318,12 @@ def build_query(q, V, objs, quantification=None):
         if t[0] == "lit":
             return list(t[1]) if isinstance(t[1], list) else real_val(t[1], objs)
         if t[0] == "attr":
+            if q.get("share_attr_nodes"):
+                # the user stored `x.a` in a Python variable and uses that ONE node object at every occurrence
+                key = repr(t)
+                if key not in shared:
+                    shared[key] = getattr(term(t[1]), t[2])
+                return shared[key]
             return getattr(term(t[1]), t[2])
         if t[0] == "call":
             return getattr(term(t[1]), t[2])()
@@ -323,6 +337,11 @@ def build_query(q, V, objs, quantification=None):
 
     def cond(c):
         k = c[0]
+        if cond_memo is not None and k in ("and", "or"):
+            key = repr(c)
+            if key not in cond_memo:
+                cond_memo[key] = and_(cond(c[1]), cond(c[2])) if k == "and" else or_(cond(c[1]), cond(c[2]))
+            return cond_memo[key]
         if k == "cmp":
             return S.Comparator(term(c[2]), term(c[3]), OPS[c[1]])
         if k == "contains":
